@@ -218,6 +218,11 @@ def canon_call(name, args):
             if prim:
                 return ("Lt" if op_ == "lt" else "Le"), [x_, y_]
             return "%s::%s" % (ty_, op_), [x_, y_]
+    # `c.encode_utf8(&mut [0u8; N])` with N >= 4 (the longest UTF-8 form of a char) is the text of `c.to_string()`;
+    # with a shorter buffer it panics for some chars and stays what it is
+    if name == "char::encode_utf8" and len(args) == 2 and isinstance(args[1], tuple) and len(args[1]) == 2 \
+            and re.fullmatch(r"repeat\d+", str(args[1][0])) and int(args[1][0][6:]) >= 4:
+        return "char::to_string", args[:1]
     return name, args
 
 
